@@ -102,6 +102,10 @@ class _StaticScope:
         """Add a name to the root/template scope."""
         self.stack[0].add(name)
 
+    def names(self) -> frozenset[str]:
+        """Return all names currently in scope."""
+        return frozenset().union(*self.stack)
+
 
 class _VariableMap:
     def __init__(self) -> None:
@@ -114,7 +118,9 @@ class _VariableMap:
         return self._data[k]
 
     def add(self, var: Variable) -> None:
-        self[var].append(var)
+        # A partial analyzed in more than one scope reports each location once.
+        if not any(v.span == var.span for v in self[var]):
+            self[var].append(var)
 
     def as_dict(self) -> dict[str, list[Variable]]:
         return self._data
@@ -155,20 +161,19 @@ def _analyze(template: Template, *, include_partials: bool) -> TemplateAnalysis:
     root_scope = _StaticScope(template_scope)
     static_context = RenderContext(template)
 
-    # Names of partial templates that have already been analyzed.
-    seen: set[str] = set()
+    # Partial templates that have already been analyzed, with the names in scope.
+    seen: set[tuple[str, frozenset[str]]] = set()
+    if template.name:
+        seen.add((template.name, frozenset()))
 
     def _visit(node: Node, template_name: str, scope: _StaticScope) -> None:
-        if template_name:
-            seen.add(template_name)
-
         # Update tags from node.token
         if not isinstance(
             node, (BlockNode, ConditionalBlockNode, MultiExpressionBlockNode)
         ) and (is_tag_token(node.token) or is_lines_token(node.token)):
-            tags[node.token.name].append(
-                Span(template_name, node.token.start, node.token.stop)
-            )
+            span = Span(template_name, node.token.start, node.token.stop)
+            if span not in tags[node.token.name]:
+                tags[node.token.name].append(span)
 
         # Update variables from node.expressions()
         for expr in node.expressions():
@@ -176,7 +181,8 @@ def _analyze(template: Template, *, include_partials: bool) -> TemplateAnalysis:
 
             # Update filters from expr
             for name, span in _extract_filters(expr, template_name):
-                filters[name].append(span)
+                if span not in filters[name]:
+                    filters[name].append(span)
 
         # Update the template scope from node.template_scope()
         for ident in node.template_scope():
@@ -191,19 +197,25 @@ def _analyze(template: Template, *, include_partials: bool) -> TemplateAnalysis:
         if partial := node.partial_scope():
             partial_name = str(partial.name.evaluate(static_context))
 
-            if partial_name in seen:
-                return
-
             partial_scope = (
                 _StaticScope(set(partial.in_scope))
                 if partial.scope == PartialScope.ISOLATED
                 else root_scope.push(set(partial.in_scope))
             )
 
+            # What a partial reads from the global namespace depends on the names
+            # in scope where it is included, so analyze it once for every such set.
+            partial_key = (partial_name, partial_scope.names())
+
+            if partial_key in seen:
+                partial_scope.pop()
+                return
+
+            seen.add(partial_key)
+
             for child in node.children(
                 static_context, include_partials=include_partials
             ):
-                seen.add(partial_name)
                 _visit(child, partial_name, partial_scope)
 
             partial_scope.pop()
@@ -241,20 +253,19 @@ async def _analyze_async(
     root_scope = _StaticScope(template_scope)
     static_context = RenderContext(template)
 
-    # Names of partial templates that have already been analyzed.
-    seen: set[str] = set()
+    # Partial templates that have already been analyzed, with the names in scope.
+    seen: set[tuple[str, frozenset[str]]] = set()
+    if template.name:
+        seen.add((template.name, frozenset()))
 
     async def _visit(node: Node, template_name: str, scope: _StaticScope) -> None:
-        if template_name:
-            seen.add(template_name)
-
         # Update tags from node.token
         if not isinstance(
             node, (BlockNode, ConditionalBlockNode, MultiExpressionBlockNode)
         ) and (is_tag_token(node.token) or is_lines_token(node.token)):
-            tags[node.token.name].append(
-                Span(template_name, node.token.start, node.token.stop)
-            )
+            span = Span(template_name, node.token.start, node.token.stop)
+            if span not in tags[node.token.name]:
+                tags[node.token.name].append(span)
 
         # Update variables from node.expressions()
         for expr in node.expressions():
@@ -262,7 +273,8 @@ async def _analyze_async(
 
             # Update filters from expr
             for name, span in _extract_filters(expr, template_name):
-                filters[name].append(span)
+                if span not in filters[name]:
+                    filters[name].append(span)
 
         # Update the template scope from node.template_scope()
         for ident in node.template_scope():
@@ -277,19 +289,25 @@ async def _analyze_async(
         if partial := node.partial_scope():
             partial_name = str(partial.name.evaluate(static_context))
 
-            if partial_name in seen:
-                return
-
             partial_scope = (
                 _StaticScope(set(partial.in_scope))
                 if partial.scope == PartialScope.ISOLATED
                 else root_scope.push(set(partial.in_scope))
             )
 
+            # What a partial reads from the global namespace depends on the names
+            # in scope where it is included, so analyze it once for every such set.
+            partial_key = (partial_name, partial_scope.names())
+
+            if partial_key in seen:
+                partial_scope.pop()
+                return
+
+            seen.add(partial_key)
+
             for child in await node.children_async(
                 static_context, include_partials=include_partials
             ):
-                seen.add(partial_name)
                 await _visit(child, partial_name, partial_scope)
 
             partial_scope.pop()
